@@ -3,7 +3,7 @@
  "name": "read_buffer",
  "props": ["C06", "C15"],
  "level": "U/iter",
- "tier": "wip",
+ "tier": "thorough",
  "harness": "h_read_buffer",
  "enforce": ["read_xattrs_from_buffer"],
  "replace": ["find_ea_prefix", "ext2fs_ext_attr_hash_entry3"],
